@@ -447,9 +447,9 @@ def b2_cases(ctx, n):
         d = f32(dir_at(nh * rng.choice([-1, 1]), th, rng))
         err = rng.choice([0.01, 0.01, 1e-3, 1e-4, -0.5])
         cap = rng.choice([1, 2, 3, 1000, 1000])
-        ex = exact_run(d, nv, mu, Fr(err), min(cap, 6))
-        if ex is None or (ex[0] == 'flag' and cap > 6 and ex[1] != 0):
-            continue                                                   # would need more than 6 exact iterations inside Coq
+        ex = exact_run(d, nv, mu, Fr(err), min(cap, 4))
+        if ex is None or (ex[0] == 'flag' and cap > 4 and ex[1] != 0):
+            continue                                                   # would need more than 4 exact iterations inside Coq (rationals double in size per step)
         want = {'tirflag': 2, 'ok': 4, 'capflag': 3}
         kind = 'tirflag' if ex == ('flag', 0) else ('ok' if ex[0] == 'ok' else 'capflag')
         if sum(1 for c in cases if c['class'] == kind) >= max(2, n * want[kind] // 8):
@@ -463,7 +463,7 @@ def b2(ctx, cases):
     terms = []
     for c in cases:
         terms.append('let r := refract_caseQ %d %s %s in (match fst r with ConvergedQ _ => 1%%Z | UndefinedQ => 2%%Z | OutOfFuelQ => 3%%Z end, Z.of_nat (snd r))'
-                     % (min(c['cap'], 8), ' '.join(qlit(x) for x in c['d'] + c['n']), qlit(Fr(c['n1'] / c['n2'])) + ' ' + qlit(Fr(c['error']))))
+                     % (min(c['cap'], 5), ' '.join(qlit(x) for x in c['d'] + c['n']), qlit(Fr(c['n1'] / c['n2'])) + ' ' + qlit(Fr(c['error']))))
     vals = ctx.coq_eval(pre, terms, label='refract_model', chunk=3, timeout=300)
     bad = 0
     for c, v in zip(cases, vals):
@@ -587,15 +587,19 @@ def run(ctx):
             ctx.obligation('translator-self-check', False, repr(e))
         ctx.sample({'traced_definition': 'g_sec_next', 'coq': shim.coq(g12.by_name['g_sec_next'][1]), 'guard': info12['guard'], 'in_loop_exits': info12['stops']})
     # B2 + direct oracles, all under the watchdog
+    ctx.log('B1 done; evaluating the model inside Coq (B2)')
     b2(ctx, b2_cases(ctx, 24 if ctx.thorough else 10))
+    ctx.log('B2 done; refract under the watchdog')
     for c in gen_refract(ctx, 400 if ctx.thorough else 70):
         res = apply_oracle(ctx, 'refract', c)
         ctx.case('refract/%s' % c['kind'].split('/err')[0], json.dumps(c, sort_keys=True), nontrivial=len(res) >= 5)
+    ctx.log('NumPy secant intersections under the watchdog')
     for c in gen_parametric(ctx, 300 if ctx.thorough else 50):
         res = apply_oracle(ctx, 'parametric', c)
         ctx.case('parametric/%s/%s' % (c['fn'], c['case'].split('=')[0]), json.dumps(c, sort_keys=True), nontrivial=len(res) >= 2)
         if c['case'] in ('miss', 'graze'):
             ctx.sample({'case': c, 'result': [r[0] + ('' if r[1] else ' FAILED') for r in res]})
+    ctx.log('PyTorch sphere search under the watchdog')
     for c in gen_torch_sphere(ctx, 20 if ctx.thorough else 4, 600 if ctx.thorough else 300):
         res = apply_oracle(ctx, 'torch_sphere', c)
         ctx.case('torch_sphere/%s' % c['case'], json.dumps(c, sort_keys=True), nontrivial=len(res) >= 4, n=len(c['rays']))
